@@ -6,6 +6,7 @@ of every line is known by construction; ``DoctestParser().parse`` must
 reproduce the docstring line for line, with the right label for every line and
 the right first-line index for every part.
 """
+import re
 import itertools
 
 from hypothesis import strategies as st
@@ -32,13 +33,14 @@ RULE = ("docstrings assembled from labelled blocks. Non-trivial: >= 2 chunks, >=
         ">= 1 of {want line starting with '...', bare '...' terminator, de-indented terminator, nested indentation}. "
         "Distinct = distinct docstring text.")
 ASSUMPTIONS = [
-    "str.expandtabs / str.splitlines define 'tab-expanded' and 'line'",
+    "str.expandtabs defines 'tab-expanded'; a line ends at \\n, \\r\\n or a lone \\r, as in a source file",
     "within one chunk every prompt stands at the same indentation (well-formed docstrings)",
 ]
 
 WORDS = ['alpha', 'beta text here', 'Returns: something', 'see >> below', '.... dots', 'x = 1 is code-like prose', '1',
          '[1, 2]', 'foo (int): bar', '<BLANKLINE>', 'a  b', 'ends with colon:', '>>>nospace', '...nospace',
-         'trailing blanks  ', 'Traceback (most recent call last):', '# looks like a comment']
+         'trailing blanks  ', 'Traceback (most recent call last):', '# looks like a comment', 'form feed \x0c and \x1c inside',
+         'vt \x0b here', 'nel \x85 and \u2028 here']
 TAGS = ['Example:', 'Args:', 'Returns:', 'Doctest:', 'Note:']
 # statement shapes: list of [mark, text]; marks as in vp/gen/programs.py
 STMTS = [
@@ -116,7 +118,10 @@ def to_text(case):
 
 def expected_lines(text):
     s = text.expandtabs()
-    lines = s.splitlines()
+    # the lines the text has in a file: broken at \n, \r\n and a lone \r only (not at form feeds, separators, NEL, U+2028...)
+    lines = re.split('\r\n|\n|\r', s)
+    if lines and lines[-1] == '':
+        lines.pop()
     inds = [len(ln) - len(ln.lstrip(' ')) for ln in lines if ln.strip(' ')]
     # only blanks count as indentation (as in the documented behaviour: common leading blanks)
     inds = [len(ln) - len(ln.lstrip(' ')) for ln in lines if ln.strip()]
